@@ -490,7 +490,7 @@ def coverage_check(cname, c, seed):
         return summary, missing
 
 
-def explore(prop, tier, seed, comp_names, t0, dfs=False):
+def explore(prop, tier, seed, comp_names, t0, dfs=False, scale=1.0):
     """run the harness for each component of the property; returns (stats, problems)
     problems: list of dict(kind, component, detail, run) where kind in
       'build' | 'reject' | 'monitor' | 'oracle' | 'coverage' | 'crash'
@@ -504,6 +504,11 @@ def explore(prop, tier, seed, comp_names, t0, dfs=False):
             problems.append(dict(kind="build", component=cname, detail=out[-3000:], run=None))
             continue
         nrand = c["quick_runs"] if tier == "quick" else c["thorough_runs"]
+        ncomp = max(1, len(comp_names))
+        if tier == "thorough":
+            # keep a thorough check within ~10 minutes: properties decided by many components split the budget, and the
+            # additional seeds (scale < 1) run a fraction of the first seed's count
+            nrand = max(c["quick_runs"], int(nrand * scale / (1 if ncomp <= 2 else ncomp / 2.0)))
         nd = c.get("directed_runs", 4) if tier == "quick" else c.get("directed_runs", 4) * 4
         size = 1 if tier == "quick" else 2
         texts = []
@@ -703,9 +708,9 @@ def run_check(prop, tier, seed):
         if tier == "thorough":
             # further independent seeds (fresh random scripts and schedules); stop at the first problem
             for extra_seed in (seed + 1000, seed + 2000):
-                if problems or time.time() - t0 > 2400:
+                if problems or time.time() - t0 > 420:
                     break
-                s2, p2 = explore(prop, tier, extra_seed, spec["components"], t0)
+                s2, p2 = explore(prop, tier, extra_seed, spec["components"], t0, scale=0.34)
                 problems += p2
                 for cname, cs2 in s2["components"].items():
                     cs = stats["components"].setdefault(cname, cs2)
